@@ -3,7 +3,7 @@
    validator decided, checked against the model by vm_compute. *)
 From Coq Require Import String List NArith ZArith Bool.
 From J5V.lib Require Import Outcome Corr.
-From J5V.model Require Import RulesDecl RulesWrite Validate.
+From J5V.model Require Import RulesDecl RulesWrite RulesSpec Validate RulesSpecDec Regex.
 Import ListNotations.
 
 (* decidable equality on emitted annotations (transparent, so it computes) *)
@@ -33,11 +33,13 @@ Definition constraint_eq_dec : forall a b : constraint, {a = b} + {a <> b}.
 Proof. decide equality; [decide equality; apply tyc_eq_dec | apply bool_dec]. Defined.
 Definition txt_rules_eq_dec : forall a b : txt_rules, {a = b} + {a <> b}.
 Proof. decide equality; try apply obool_eq_dec; apply ostr_eq_dec. Defined.
+Definition kfmt_eq_dec0 : forall a b : kfmt, {a = b} + {a <> b}.
+Proof. decide equality; apply str_eq_dec. Defined.
 Definition j5ext_eq_dec : forall a b : j5ext, {a = b} + {a <> b}.
 Proof.
   decide equality; try apply ostr_eq_dec; try apply bool_dec;
     try (apply list_eq_dec; apply str_eq_dec);
-    decide equality; apply txt_rules_eq_dec.
+    decide equality; first [apply txt_rules_eq_dec | apply kfmt_eq_dec0].
 Defined.
 Definition larm_eq_dec : forall a b : larm, {a = b} + {a <> b}.
 Proof. decide equality. Defined.
@@ -65,7 +67,7 @@ Definition fout_eqb (a b : fout) : bool := if fout_eq_dec a b then true else fal
    j5.ext / j5.list annotations and the description are
    C04's business *)
 Definition c12_proj (o : fout) : fout :=
-  FO (fo_json o) (fo_number o) (fo_kind o) (fo_rep o) (fo_opt o) (fo_pres o) (fo_val o) None None None [].
+  FO (fo_json o) (fo_name o) (fo_number o) (fo_kind o) (fo_rep o) (fo_opt o) (fo_pres o) (fo_val o) None None None [].
 
 (* compile outcome: only the kind of failure is compared *)
 Definition out_agree (m : outcome fout) (o : outcome fout) : bool :=
@@ -76,22 +78,47 @@ Definition out_agree (m : outcome fout) (o : outcome fout) : bool :=
   | _, _ => false
   end.
 
+Definition verdict_eqb (a b : verdict) : bool :=
+  match a, b with
+  | VAccept, VAccept | VReject, VReject | VError ECompile, VError ECompile | VError ERuntime, VError ERuntime => true
+  | _, _ => false
+  end.
+
+(* the Go oracle's reading of the declaration (None: the declaration is outside
+   what it judges) against the decision procedure of the Coq specification *)
+Definition spec_agree (m : bool) (g : option bool) : bool :=
+  match g with Some b => Bool.eqb m b | None => true end.
+
 (* one property: environment, position, declaration, what the compiler emitted,
-   and (value, the real validator accepts) pairs *)
+   and per value: what the real validator returned and what the Go oracle reads
+   the declaration as saying *)
 Inductive c12case :=
-| C12Case (env : enum_env) (idx : N) (d : prop) (obs : outcome fout) (vals : list (fvalue * bool))
-(* a whole message: the emitted fields and (one value per field, the real
-   validator raises no violation on any of these fields) *)
-| C12Obj (env : enum_env) (obs : list fout) (msgs : list (list fvalue * bool)).
+| C12Case (env : enum_env) (idx : N) (d : prop) (obs : outcome fout) (vals : list (fvalue * verdict * option bool))
+(* a whole message: the declarations, the emitted fields and per message (one
+   value per field): what the real validator returned (violations on these
+   fields only) and the Go oracle's conjunction of the declared rules *)
+| C12Obj (env : enum_env) (ds : list prop) (obs : list fout) (msgs : list (list fvalue * verdict * option bool))
+(* the regular-expression engine on its own: a pattern, whether Go's regexp compiles
+   it, and (text, regexp.MatchString) pairs *)
+| C12Re (p : str) (go_compiles : bool) (ms : list (str * bool)).
 
 Definition c12_check (c : c12case) : bool :=
   match c with
   | C12Case env idx d obs vals =>
       out_agree (write_prop env idx d) obs &&
       match obs with
-      | Ok o => forallb (fun p => Bool.eqb (validate_sem re_class_count (defined_numbers env) o (fst p)) (snd p)) vals
+      | Ok o => forallb (fun p => match p with (fv, vd, g) =>
+                  verdict_eqb (validate_sem re_frag_ok re_frag_match (defined_numbers env) o fv) vd
+                  && spec_agree (rule_semb re_frag_match env d fv) g end) vals
       | _ => true
       end
-  | C12Obj env obs msgs =>
-      forallb (fun p => Bool.eqb (validate_obj re_class_count (defined_numbers env) obs (fst p)) (snd p)) msgs
+  | C12Obj env ds obs msgs =>
+      forallb (fun p => match p with (fvs, vd, g) =>
+                  verdict_eqb (validate_obj re_frag_ok re_frag_match (defined_numbers env) obs fvs) vd
+                  && spec_agree (rule_objb re_frag_match env ds fvs) g end) msgs
+  | C12Re p go_compiles ms =>
+      (* the pattern lies in the modelled fragment; the parser agrees with Go on
+         whether it compiles; the derivative matcher agrees with MatchString *)
+      re_in_fragment p && Bool.eqb (re_frag_ok p) go_compiles &&
+      forallb (fun m => Bool.eqb (re_frag_match p (fst m)) (snd m)) ms
   end.
